@@ -189,7 +189,12 @@ def report(prop, spec, tier, seed, results, extra, t0, common, partial=False):
             crashes.append(f"{r['contract']}: no obligation generated (vacuity guard)")
         if r.get('reason'):
             undecided.append(f"{r['contract']}: {r['reason']}")
+        only = (r.get('prop_clauses') or {}).get(prop)
         for v in r['vcs']:
+            if only is not None and v['kind'] not in ('vacuity', 'note', 'translate'):
+                clause = v['name'].split('#', 1)[-1].split('@')[0]
+                if not any(clause.startswith(pfx) for pfx in only):
+                    continue          # a clause of this shared contract that another property rests on, not this one
             if v['kind'] == 'vacuity':
                 vac += 1
                 if v['status'] != 'unsat':
